@@ -178,13 +178,17 @@ theorem pttempo_remove_entitlement :
   cases ovw <;> rfl
 
 /-- **remove()** deletes exactly when the object is entitled: `remove()` on a
-    non-removeable object deletes nothing and raises, on a removeable one it deletes; and
+    non-removeable object deletes nothing and raises, on a removeable one it deletes; a
+    non-removeable object deletes nothing either when its handle was closed before
+    (`close(); remove()`) or when `remove()` is called a second time; and
     `_removeable` is set exactly for temporary files the object created itself and for named
     files it was allowed to overwrite — never for a file opened for reading or created with
     `mode='write'` under a given name. -/
 theorem remove_guard :
     removeRun flags.removeSteps false = (false, true) ∧
     removeRun flags.removeSteps true = (true, false) ∧
+    (∀ isOpen, (removeRunO flags.removeSteps false isOpen).1 = false) ∧
+    (∀ twice, removeSeqDeletes flags.removeSteps false twice = false) ∧
     (∀ hasFilename, removeableOf flags "read" hasFilename = some (entitled "read" hasFilename)) ∧
     (∀ hasFilename, removeableOf flags "write" hasFilename = some (entitled "write" hasFilename)) ∧
     (∀ hasFilename, removeableOf flags "overwrite" hasFilename = some (entitled "overwrite" hasFilename)) := by
